@@ -23,6 +23,16 @@ CHECKS = {
         technique="TLA+ spec of the reorder buffer model-checked by TLC (state = function of stored set); store/close/reopen/fetch traces of the real accessor validated by the trace spec; exported permutations replayed",
         text="TLC proves on the bounded design that the writer state is a function of the stored set (all orders collapse), that read-back through both the format reader and the package's reader returns the stored payload and that never-stored ids yield no data; every exported behaviour (subset x permutation of small grids) and seeded larger histories are executed on the real accessor (both strategies), every grid position fetched through a fresh accessor, file hashes compared per group; verdicts from Trace_Shard.",
         note=TRUST + "; zero-length payloads excluded."),
+    "C09": dict(
+        cat="model_checking", ref="5.C09",
+        technique="TLA+ definition of the compressed Morton code and routing model-checked by TLC (injective, bounded, monotone, mask algebra at reduced width); real get_cmc / shard key / file name results judged by the TLC trace spec on bit sequences",
+        text="TLC proves on all grids <= 6^3 (+ lines to 64) that the specification's compressed Morton code is injective, bounded and monotone, and that the package's uint64 mask arithmetic (transcribed at width 8) equals the oracle routing for every bit triple with total 0..12; the real get_cmc is then executed on every position of those grids including the outer boundary, negative and off-lattice positions, on sampled grids up to 2^21 per axis, and the real shard/minishard keys and file names for triples with totals 0..70; TLC compares every result with the oracle.",
+        note=TRUST + "; only integer coordinates are offered."),
+    "C12": dict(
+        cat="model_checking", ref="5.C12",
+        technique="TLA+ state machine of the file accessor (paths, gzip/MIME rules, probe order, ghost 'latest' variables) model-checked by TLC; TLC-generated and random store histories replayed on real accessors and validated step by step by a stateful trace spec; confinement probes for both file accessors",
+        text="TLC explores all store histories up to the bound under the four writer configurations and proves LastWriteWins / NoOverwrite / PathsDocumented for the design (and shows the mixed-MIME deviation breaks them); TLC-simulated behaviours and longer random histories run on real FileAccessor objects, and after every step the directory tree (strict independent gzip inflate), every name and every chunk through all four reader configurations are recorded and checked by Trace_FileStore; path-confinement probes (.., nested .., absolute) for FileAccessor and ShardedFileAccessor.",
+        note=TRUST + "; known finding: same name stored with MIME types of different compressibility (see known_findings.json)."),
 }
 
 NOT_APPLICABLE_REASONS = {}
